@@ -526,3 +526,81 @@ def coverage_extra(tier, seed, results):
     return {"cases_by_part": parts, "gradient_pairs_compared": cmp_, "gradient_pairs_not_comparable": notcmp,
             "worst_margin_observed_over_tolerance": worst,
             "functionals": S.FUNCTIONALS, "registered_names": S.BUILTINS}
+
+
+# ---- call-order plane (executed by mc/core.py in fresh interpreters, see mc/props/_hist_common.py): what a method
+# callable (or a built-in name) was given in ONE call must not leak into a later call of the same functional -
+# options, the method itself and the backward options are per call
+_HIST_LABELS = ["quad/callable-midpoint4/value-only", "quad/leggauss5/backward", "quad/callable-midpoint4/backward",
+                "quad/leggauss9+bck-n3/backward", "solve_ivp/callable-euler/backward", "solve_ivp/rk4/backward",
+                "rootfinder/callable-newton/backward", "rootfinder/broyden1/backward"]
+HISTORY = {"labels": _HIST_LABELS, "tol": [1e-12, 1e-12, 1e-12, 1e-12, 1e-11, 1e-11, 1e-8, 1e-8],
+           "depth": {"quick": 2, "thorough": 3},
+           "prelude": r'''import torch, xitorch
+from xitorch.integrate import quad, solve_ivp
+from xitorch.optimize import rootfinder
+DT = torch.float64
+def midpoint(fcn, xl, xu, params, n=4, **unused):
+    h = (xu - xl) / n
+    res = None
+    for i in range(n):
+        v = fcn(xl + (i + 0.5) * h, *params) * h
+        res = v if res is None else res + v
+    return res
+def euler2(fcn, ts, y0, params, **unused):
+    # two explicit Euler half steps per interval
+    ys = [y0]
+    y = y0
+    for i in range(len(ts) - 1):
+        h = (ts[i + 1] - ts[i]) / 2
+        y = y + h * fcn(ts[i], y, *params)
+        y = y + h * fcn(ts[i] + h, y, *params)
+        ys.append(y)
+    return torch.stack(ys)
+def newton_fd(fcn, y0, params, **unused):
+    y = y0
+    for _ in range(30):
+        yy = y.detach().requires_grad_()
+        with torch.enable_grad():
+            f = fcn(yy, *params)
+            J = torch.stack([torch.autograd.grad(f[k], yy, retain_graph=True)[0] for k in range(f.numel())])
+        y = (yy - torch.linalg.solve(J, f)).detach()
+    return y
+def integrand(x, a):
+    return torch.exp(-a * x * x) * (1.0 + x)
+def rhs(t, y, a):
+    return -a * y + torch.sin(3.0 * t)
+def resid(y, a):
+    return y + 0.5 * torch.tanh(a * y) - torch.tensor([0.3, -0.2], dtype=DT)
+def do(i):
+    a = torch.tensor(0.8, dtype=DT, requires_grad=True)
+    if i < 4:
+        xu = torch.tensor(1.25, dtype=DT, requires_grad=True)
+        if i == 0:
+            with torch.no_grad():
+                y = quad(integrand, -0.5, xu, params=(a,), method=midpoint, n=4)
+            return [float(y)]
+        if i == 1:
+            y = quad(integrand, -0.5, xu, params=(a,), method="leggauss", n=5)
+        elif i == 2:
+            y = quad(integrand, -0.5, xu, params=(a,), method=midpoint, n=4)
+        else:
+            y = quad(integrand, -0.5, xu, params=(a,), method="leggauss", n=9, bck_options={"n": 3})
+        ga, gu = torch.autograd.grad(y, (a, xu), create_graph=True)
+        gaa, = torch.autograd.grad(ga, a)
+        return [float(y), float(ga), float(gu), float(gaa)]
+    if i < 6:
+        ts = torch.linspace(0.0, 1.0, 5, dtype=DT)
+        y0 = torch.tensor([1.0, -0.5], dtype=DT, requires_grad=True)
+        yt = solve_ivp(rhs, ts, y0, params=(a,), method=(euler2 if i == 4 else "rk4"))
+        L = (yt * torch.cos(torch.arange(10, dtype=DT).reshape(5, 2))).sum()
+        ga, gy = torch.autograd.grad(L, (a, y0))
+        return [float(v) for v in yt.detach().reshape(-1)] + [float(ga)] + [float(v) for v in gy]
+    y0 = torch.zeros(2, dtype=DT)
+    if i == 6:
+        y = rootfinder(resid, y0, params=(a,), method=newton_fd)
+    else:
+        y = rootfinder(resid, y0, params=(a,), method="broyden1", f_tol=1e-12, x_tol=1e-12, maxiter=100)
+    ga, = torch.autograd.grad((y * torch.tensor([1.0, 2.0], dtype=DT)).sum(), a)
+    return [float(v) for v in y.detach()] + [float(ga)]
+'''}
